@@ -1035,9 +1035,15 @@ class WorkflowConductor(object):
                         # Add a backref for the current task in the next task.
                         staged_next_task["prev"][backref] = task_state_idx
 
-                        # Clear list of items for with items task.
-                        staged_next_task.pop("items", None)
-                        staged_next_task.pop("completed", None)
+                        # Clear list of items for with items task unless its items are in
+                        # progress, in which case the entry belongs to a running execution.
+                        if not [
+                            item
+                            for item in staged_next_task.get("items", [])
+                            if item["status"] in statuses.ACTIVE_STATUSES
+                        ]:
+                            staged_next_task.pop("items", None)
+                            staged_next_task.pop("completed", None)
                     else:
                         # Otherwise create a new entry in staging for the next task.
                         staged_next_task = self.workflow_state.add_staged_task(
